@@ -68,9 +68,23 @@ def run(ctx):
     from harness.components import crossloopmodel
     crossloopmodel.model_check(ctx)
     n = 3000 if ctx.tier == 'quick' else 60000
+    executed = []
     for off in range(0, n, 6000):
-        ctx.run_and_validate(DRIVER, COMP, TRACE, gen(rng, min(6000, n - off)), 'callers',
-                             nontrivial=nontrivial, known_match=known_match)
+        out = ctx.run_and_validate(DRIVER, COMP, TRACE, gen(rng, min(6000, n - off)), 'callers',
+                                   nontrivial=nontrivial, known_match=known_match)
+        if len(executed) < 6000:
+            executed.extend(out)
+    # programs in the scope of CrossLoop.tla (every caller ensure_aw(coroutine, T)) for the conformance sample
+    extra = gen(rng, 300, modes=('idle', 'lit', 'closed'))
+    for sc in extra:
+        for cs in sc['callers']:
+            cs['to'] = 'T'
+            cs['fn'] = 'ensure_aw'
+            cs['aw']['kind'] = 'coro'
+    executed.extend(ctx.run_and_validate(DRIVER, COMP, TRACE, extra, 'callers_model_scope',
+                                         nontrivial=nontrivial, known_match=known_match))
+    # implementation conformance: a sample of the recorded executions against CrossLoop.tla itself
+    crossloopmodel.conformance(ctx, executed, limit=32 if ctx.tier == 'quick' else 400)
     return ctx.finish(
         rule='1..3 caller threads (each with its own loop) targeting one loop that is idle / run by loop_in_thread / '
              'closed / the caller\'s own; awaitables = coroutine, task, future that return / raise / sleep {0,1,2} s; '
